@@ -237,6 +237,44 @@ Definition rename_blocks (g : grid) (m : list (str * str)) : res grid :=
   let g3 := fold_left file_block renamed g2 in
   Ok (rebuild_cdict g3).
 
+(** ** rename_blocks(blockmap, fix_blocknames = True): [mulgrids.fix_block_mapping] rewrites the map first *)
+(** [fix_blockname(name)]: TOUGH2 reads names as (a3, i2), so ['AB1 1'] stands for ['AB101'] *)
+Definition fix_blockname (n : str) : res str :=
+  match nth_error n 2 with
+  | None => Raise IndexError                                   (* name[2] *)
+  | Some c2 =>
+      if is_digit c2 then
+        match nth_error n 4, nth_error n 3 with
+        | Some c4, Some c3 =>
+            if is_digit c4 && ceqb c3 " " then Ok (firstn 3 n ++ "0"%char :: firstn 1 (skipn 4 n))   (* '0'.join((name[0:3], name[4:5])) *)
+            else Ok n
+        | _, _ => Raise IndexError                             (* name[4] *)
+        end
+      else Ok n
+  end.
+(** first loop: every value fixed in place; the keys that need fixing are collected *)
+Fixpoint fix_values (m : list (str * str)) : res (list (str * str) * list (str * str)) :=
+  match m with
+  | [] => Ok ([], [])
+  | (k, v) :: r =>
+      do fk <- fix_blockname k; do fv <- fix_blockname v; do rest <- fix_values r;
+      Ok ((k, fv) :: fst rest, if str_eqb k fk then snd rest else (k, fk) :: snd rest)
+  end.
+(** second loop: [item = blockmap[k]; del blockmap[k]; blockmap[v] = item] *)
+Fixpoint move_keys (m : list (str * str)) (ks : list (str * str)) : res (list (str * str)) :=
+  match ks with
+  | [] => Ok m
+  | (k, fk) :: r =>
+      match aget str_eqb m k with
+      | None => Raise KeyError
+      | Some item => move_keys (aset str_eqb (adel str_eqb m k) fk item) r
+      end
+  end.
+Definition fix_block_mapping (m : list (str * str)) : res (list (str * str)) :=
+  do vk <- fix_values m; move_keys (fst vk) (snd vk).
+Definition rename_blocks_fix (g : grid) (m : list (str * str)) : res grid :=
+  do m' <- fix_block_mapping m; rename_blocks g m'.
+
 (** ** reorder(block_names, connection_names) *)
 Fixpoint lookup_blocks (g : grid) (ns : list str) : res (list id) :=
   match ns with
@@ -399,6 +437,8 @@ Inductive op :=
   | AddBlock (n rk : str) | DelBlock (n : str) | Demote (ns : list str)
   | AddConn (a b : str) | DelConn (a b : str)
   | Rename (m : list (str * str)) | Reorder (bns : list str) (cns : list key2)
+  (** [rename_blocks(blockmap)] with the default [fix_blocknames = True] *)
+  | RenameFix (m : list (str * str))
   (** [g.minc(...)] with the naming functions, the number of matrix levels, the selection and the names failing the volume test *)
   | Minc (mb mr : str -> nat -> str) (levels : nat) (sel inel : list str)
   (** [g = g + h] ([other_first]: [g = h + g]) for a second grid [h] over the same objects *)
@@ -420,6 +460,7 @@ Definition step (g : grid) (o : op) : res grid :=
   | DelConn a b => delete_connection g (a, b)
   | Rename m => rename_blocks g m
   | Reorder bns cns => reorder g bns cns
+  | RenameFix m => rename_blocks_fix g m
   | Minc mb mr levels sel inel => minc mb mr levels sel inel g
   | AddGrid h other_first => if other_first then grid_add g h (view_of g) else grid_add g (view_of g) h
   | Embed h i0 i1 fits =>
@@ -430,3 +471,118 @@ Definition step (g : grid) (o : op) : res grid :=
 
 Fixpoint run (g : grid) (ops : list op) : res grid :=
   match ops with [] => Ok g | o :: r => do g1 <- step g o; run g1 r end.
+
+(** ** what a REFUSED edit leaves behind.  A caller may catch the exception and go on using the grid: [after g o] is
+    the state of the grid when [step g o] raises, for a consistent [g] (the only raises that a consistent grid
+    allows are listed with each case).  Most refusals come before the first assignment of the method; the loops
+    (demote_block over several names, the connection loop of reorder, minc) stop half way. *)
+(** demote_block: the names before the unknown one have been demoted *)
+Fixpoint demote_partial (g : grid) (ns : list str) : grid :=
+  match ns with
+  | [] => g
+  | n :: r =>
+      match bget g n with
+      | None => g
+      | Some i => if mem i (blist g) then demote_partial (set_blist g (lremove (blist g) i ++ [i])) r else g
+      end
+  end.
+(** reorder: the block list is assigned at once (KeyError before it: nothing happened); the connection loop has
+    reversed the connections named in reverse before it meets an unknown pair, and has not assigned the list *)
+Fixpoint reorder_conns_partial (g : grid) (ks : list key2) : grid :=
+  match ks with
+  | [] => g
+  | k :: r =>
+      match cget g k with
+      | Some _ => reorder_conns_partial g r
+      | None =>
+          let orig := (snd k, fst k) in
+          match cget g orig with
+          | None => g
+          | Some j => match reverse_connection g j orig k with Ok g1 => reorder_conns_partial g1 r | Raise _ => g end
+          end
+      end
+  end.
+Definition reorder_partial (g : grid) (bns : list str) (cns : list key2) : grid :=
+  match (match bns with [] => Ok g | _ => do l <- lookup_blocks g bns; Ok (set_blist g l) end) with
+  | Raise _ => g
+  | Ok g1 => match cns with [] => g1 | _ => reorder_conns_partial g1 cns end
+  end.
+(** minc: the blocks before the failing one are done; of the failing one, the levels before the failing level,
+    and the rock type of the failing level (duplicate_rock comes before the test of the matrix block name) *)
+Section MincPartial.
+  Variable mb : str -> nat -> str.
+  Variable mr : str -> nat -> str.
+  Definition minc_level_partial (orock : id) (g : grid) (m : nat) : grid :=
+    match duplicate_rock g (mr (rn g orock) m) with Ok g1 => g1 | Raise _ => g end.
+  Fixpoint minc_levels_partial (blkname : str) (orock : id) (g : grid) (last : id) (m n : nat) : grid :=
+    match n with
+    | O => g
+    | S n' =>
+        match minc_level mb mr blkname orock g last (S m) with
+        | Ok s => minc_levels_partial blkname orock (fst s) (snd s) (S m) n'
+        | Raise _ => minc_level_partial orock g (S m)
+        end
+    end.
+  Definition minc_block_partial (levels : nat) (inel names0 : list str) (g : grid) (blkname : str) : grid :=
+    match bget g blkname with
+    | None => g
+    | Some blk =>
+        if smem blkname inel then g else if negb (smem blkname names0) then g
+        else minc_levels_partial blkname (br g blk) g blk 0 levels
+    end.
+  Fixpoint minc_blocks_partial (levels : nat) (inel names0 : list str) (g : grid) (blocks : list str) : grid :=
+    match blocks with
+    | [] => g
+    | n :: r =>
+        match minc_block mb mr levels inel names0 g n with
+        | Ok g1 => minc_blocks_partial levels inel names0 g1 r
+        | Raise _ => minc_block_partial levels inel names0 g n
+        end
+    end.
+  Definition minc_partial (levels : nat) (sel inel : list str) (g : grid) : grid :=
+    match levels with
+    | O => g
+    | _ => let names0 := map (bn g) (blist g) in
+           minc_blocks_partial levels inel names0 g (match sel with [] => names0 | _ => sel end)
+    end.
+End MincPartial.
+
+(** delete_connection: [for block in con.block: block.connection_name.remove(name)] -- the second [remove] raises
+    KeyError when the connection joins a block with itself (the name was recorded once and is gone after the first);
+    delete_block stops in its loop over the block's connection names (the model takes them in the order in which they
+    were recorded; Python iterates over a copy of the set) *)
+Definition delete_connection_partial (g : grid) (k : key2) : grid :=
+  match cget g k with
+  | None => g
+  | Some j =>
+      match cn_remove g (c0 g j) k with
+      | Raise _ => g
+      | Ok g1 => match cn_remove g1 (c1 g j) k with Raise _ => g1 | Ok g2 => set_cdict g2 (adel key2_eqb (cdict g2) k) end
+      end
+  end.
+Fixpoint delete_connections_partial (g : grid) (ks : list key2) : grid :=
+  match ks with
+  | [] => g
+  | k :: r => match delete_connection g k with Ok g1 => delete_connections_partial g1 r | Raise _ => delete_connection_partial g k end
+  end.
+
+Definition after (g : grid) (o : op) : grid :=
+  match o with
+  | DelConn a b => delete_connection_partial g (a, b)     (* KeyError: a connection of a block with itself *)
+  | DelBlock n => match bget g n with Some i => delete_connections_partial g (cn g i) | None => g end
+  | Demote ns => demote_partial g ns                       (* TypeError: pop(None) at an unknown name *)
+  | Reorder bns cns => reorder_partial g bns cns           (* KeyError (block), Exception (connection) *)
+  | Minc mb mr levels sel inel => minc_partial mb mr levels sel inel g
+  | Embed h i0 i1 _ => new_conn g i0 i1                    (* KeyError when the connection's block names are not in the sum;
+                                                              the sum was a local object and only re-added recorded names *)
+  | _ => g                                                 (* rename_rocktype (Exception), add_block / add_connection with an
+                                                              unknown name (KeyError in the caller's expression), rename_blocks
+                                                              with a short name (IndexError in fix_block_mapping): nothing assigned yet *)
+  end.
+
+(** a run in which the caller catches every exception and carries on with the grid as the refused edit left it *)
+Fixpoint run_on (g : grid) (ops : list op) : grid :=
+  match ops with
+  | [] => g
+  | o :: r => match step g o with Ok g1 => run_on g1 r | Raise _ => run_on (after g o) r end
+  end.
